@@ -151,6 +151,11 @@ theorem workerPut_entry {s : State} {id hash : Nat} {w : Int} {k v : Nat} {ttl :
         rw [AMap.get?_delKeys, hk]; simp
       dsimp only at h
       split at h
+      · simp only [Except.ok.injEq, Prod.mk.injEq] at h
+        obtain ⟨rfl, _⟩ := h
+        simp only [Exec.kill, f1] at he
+        rw [habs] at he; cases he
+      split at h
       · split at h
         · simp only [Except.ok.injEq, Prod.mk.injEq] at h
           obtain ⟨rfl, _⟩ := h
